@@ -30,7 +30,9 @@ Oracle (reference written from the statement and USB 3.2 table 6-30; no luna cod
   v >= hi+2, otherwise "don't care" (one sampling cycle of an asynchronous edge plus one cycle for the counting
   convention: the statement does not fix the rounding).
   Periodic pattern: the burst start s_(i+1) is an *allowed* report point iff L_(i-1), P_(i-1), L_i, P_i are all not OUT
-  (second of two consecutive in-window pairs), *required* iff all four are IN.  Non-periodic: the end of burst i is
+  (second of two consecutive in-window pairs), *required* iff all four are IN and it is the first such point of an
+  unbroken in-window train (later points of the train are allowed: a detector that starts over after a report is also
+  correct).  Non-periodic: the end of burst i is
   allowed iff L_i is not OUT, required iff IN.  Every cycle with `detect` high must be matched (latency 0..8 cycles,
   so the two synchroniser flip-flops and an additional pipeline register are tolerated) to an allowed report point
   that has not been used by an earlier detect cycle; every required report point must be matched.
@@ -347,10 +349,18 @@ def segment(x):
     return runs
 
 
-def judge_detector(res, tag, cfg, x, d, deferred, xcvr=False):
+def judge_detector(res, tag, cfg, x, d, deferred, xcvr=False, quiet=False):
     b_lo, b_hi, r_lo, r_hi = cfg["win"]
     periodic = r_lo is not None
     runs = segment(x)
+    if quiet:
+        # the transceiver's ping / reset detectors at polling scale: judged, but kept out of the coverage counters
+        class _Q:
+            unjudged = 0
+            def bin(self, *a, **k): pass
+            def event(self, *a, **k): pass
+            violation = res.violation
+        res = _Q()
     res.event("bursts_in", len(runs))
     points = []         # [time, status('required'|'allowed'|'forbidden'), reason, used]
     pre = "per" if periodic else "one"
@@ -405,8 +415,11 @@ def judge_detector(res, tag, cfg, x, d, deferred, xcvr=False):
                 status = "forbidden"
                 if reason.startswith("prev") and cur == [IN, IN]:
                     res.bin("per_forbidden_only_prev_bad")
-            if status == "required" and prev_status == "required":
+            if status == "required" and prev_status in ("required", "allowed_in"):
+                # third, fourth ... pair of an unbroken in-window train: a report is allowed, not demanded (a detector
+                # that starts over after each report is also correct); only the first report of a train is demanded
                 res.bin("per_two_required_in_a_row")
+                status = "allowed_in"
             if status != "forbidden" and i >= 2 and cls[i - 2][0] == OUT_HI and runs[i - 1][0] - runs[i - 2][0] - cls[i - 2][2] <= 20:
                 res.bin("good_train_right_after_overlong_burst")
             prev_status = status
@@ -427,6 +440,8 @@ def judge_detector(res, tag, cfg, x, d, deferred, xcvr=False):
         if p[1] == "required":
             res.event("required_points")
             res.bin(pre + "_required")
+        elif p[1] == "allowed_in":
+            pass
         elif p[1] == "allowed":
             res.bin(pre + "_dontcare_point")
         else:
@@ -448,6 +463,8 @@ def judge_detector(res, tag, cfg, x, d, deferred, xcvr=False):
             cands.append(points[j])
             j += 1
         ok = [p for p in cands if p[1] != "forbidden" and not p[3]]
+        if ok and ok[0][1] == "allowed_in":
+            res.event("detects_on_later_pairs_of_a_train")
         if ok:
             ok[0][3] = True
             res.event("detects_matched")
@@ -738,8 +755,8 @@ def run_case(rng, tier, res):
     if use_xcvr:
         x = T(xcvr.signaling_received)
         judge_detector(res, "xcvr.polling", xcfg["polling"], x, T(xcvr.polling_detected), deferred, xcvr=True)
-        judge_detector(res, "xcvr.ping", xcfg["ping"], x, T(xcvr.ping_detected), deferred)
-        judge_detector(res, "xcvr.reset", xcfg["reset"], x, T(xcvr.reset_detected), deferred)
+        judge_detector(res, "xcvr.ping", xcfg["ping"], x, T(xcvr.ping_detected), deferred, quiet=True)
+        judge_detector(res, "xcvr.reset", xcfg["reset"], x, T(xcvr.reset_detected), deferred, quiet=True)
         judge_generator(res, "xcvr.gen", xcvr_f, 1.0e-6, 10.0e-6, T(xcvr.send_polling), T(xcvr.send_signaling),
                         T(xcvr.drive_electrical_idle), None)
     for mech, detail in deferred[:3]:
